@@ -191,6 +191,7 @@ package handlers
 //@   ensures pxCalls == old(pxCalls) + 1 ==> pxPath == ptPath
 //@   ensures a.statsCollector == old(a.statsCollector) && pr.stats == old(pr.stats) && pr.stats != nil && trCount == old(trCount)
 //@   at call ProxyRequestToEndpoints 1 assert len(ghost(w).hdr["X-Olla-Mode"]) == 1 && ghost(w).hdr["X-Olla-Mode"][0] == "passthrough"
+//@   at call ProxyRequestToEndpoints 1 assert r.ContentLength == len(passthroughReq.Body) && r.URL.Path == passthroughReq.TargetPath
 
 // native(ty): the shipped profile for endpoint type ty declares native Anthropic support and has it enabled
 //@ spec func anthCfg(ty string) *domain.AnthropicSupportConfig = purecall("ProfileLookup.GetAnthropicSupport", "*domain.AnthropicSupportConfig", ty)
@@ -376,6 +377,9 @@ package handlers
 //@   requires !ghost(w).started && len(ghost(w).hdr["Content-Type"]) == 0 && allocated(ghost(w).hdr)
 //@   modifies *
 //@   at call executeTranslatedNonStreamingRequest 1 assert r.URL.Path == stripped(transformedReq.TargetPath, "/olla/") || transformedReq.TargetPath == ""
+// C14 / C12: in translation mode the request handed on carries the serialised OpenAI request, not the client's bytes
+//@   at call executeTranslatedNonStreamingRequest 1 assert ghost(r.Body).remaining == bytesContent(openaiBody) && r.ContentLength == len(openaiBody)
+//@   at call executeTranslatedStreamingRequest 1 assert ghost(r.Body).remaining == bytesContent(openaiBody) && r.ContentLength == len(openaiBody)
 //@   ensures !transformedReq.IsStreaming ==> ghost(w).started
 //@   ensures a.statsCollector == old(a.statsCollector) && pr.stats == old(pr.stats) && pr.stats != nil && trCount == old(trCount)
 //@   ensures !transformedReq.IsStreaming && ghost(w).started && ghost(w).status >= 400 ==> pr.hadError
